@@ -59,6 +59,11 @@ func (m *Model) Before(w *wsutil.Writer) (buffered, size int) {
 // sizeBefore come from Before.
 func (m *Model) After(op Op, res Result, bufferedBefore, sizeBefore int) *Viol {
 	kind := kindNames[op.Kind]
+	if res.CallerChanged != "" {
+		// a second writer sending the same payload at that moment (a broadcast) would accept these bytes and put
+		// others on the wire
+		return v("shared-payload/"+kind, "the slice given to %s of %d bytes did not hold the caller's bytes %s", kind, res.K, res.CallerChanged)
+	}
 	// ---- return values (healthy destination)
 	switch op.Kind {
 	case Write, ReadFrom:
